@@ -147,6 +147,17 @@ def attempt(row, rng, tmp):
         col = rng.choice(["zz", "A", "a ", "d"])
         val = rng.choice([[col], ["a", col], col])
         kw = {field: val}
+        if rng.random() < 0.4:
+            # multi-section: the column exists, but only in the OTHER section's data
+            df2 = pl.DataFrame({"a": ["1", "2"], "other": ["u", "v"]})
+            kw2 = {field: rng.choice([["other"], ["a", "other"], "other"])}
+            order = rng.random() < 0.5
+            dfs = [df, df2] if order else [df2, df]
+            bodies = [rtf.RTFBody(**kw2), rtf.RTFBody()] if order else [rtf.RTFBody(), rtf.RTFBody(**kw2)]
+            okb = [rtf.RTFBody(**{field: ["a"]}), rtf.RTFBody()] if order else [rtf.RTFBody(), rtf.RTFBody(**{field: ["a"]})]
+            return {"outcome": _classify(lambda: rtf.RTFDocument(df=dfs, rtf_body=bodies)),
+                    "control": _classify(lambda: rtf.RTFDocument(df=dfs, rtf_body=okb)) == "accepted",
+                    "value": "2 sections, %r names a column of the other section" % (kw2,)}
         return {"outcome": _classify(lambda: rtf.RTFDocument(df=df, rtf_body=rtf.RTFBody(**kw))),
                 "control": _classify(lambda: rtf.RTFDocument(df=df, rtf_body=rtf.RTFBody(**{field: ["a"]}))) == "accepted", "value": repr(val)}
     good = os.path.join(tmp, "ok2.png")
